@@ -1,0 +1,112 @@
+//go:build verif
+
+// Verification hook (add-only, compiled only with -tags verif): exposes the meta state
+// machine (storeFSM on a fresh in-memory Store) to an external test harness: apply one
+// raft log entry, take / persist a snapshot, restore from bytes, reach the catalogue.
+
+package meta
+
+import (
+	"bytes"
+	"io"
+	"sort"
+
+	"github.com/hashicorp/raft"
+	"github.com/openGemini/openGemini/lib/config"
+	"github.com/openGemini/openGemini/lib/errno"
+	"github.com/openGemini/openGemini/lib/logger"
+	"github.com/openGemini/openGemini/lib/spdy/transport"
+	meta2 "github.com/openGemini/openGemini/lib/util/lifted/influx/meta"
+	"go.uber.org/zap"
+)
+
+// VerifFSM wraps a Store that was never opened (no raft, no network, no disk).
+type VerifFSM struct{ s *Store }
+
+type verifNetStore struct{}
+
+func (verifNetStore) GetShardSplitPoints(node *meta2.DataNode, database string, pt uint32, shardId uint64, idxes []int64) ([]string, error) {
+	return nil, nil
+}
+func (verifNetStore) DeleteDatabase(node *meta2.DataNode, database string, pt uint32) error { return nil }
+func (verifNetStore) DeleteRetentionPolicy(node *meta2.DataNode, db string, rp string, pt uint32) error {
+	return nil
+}
+func (verifNetStore) DeleteMeasurement(node *meta2.DataNode, db string, rp string, name string, shardIds []uint64) error {
+	return nil
+}
+func (verifNetStore) MigratePt(nodeID uint64, data transport.Codec, cb transport.Callback) error {
+	return nil
+}
+func (verifNetStore) SendSegregateNodeCmds(nodeIDs []uint64, address []string) (int, error) {
+	return 0, nil
+}
+func (verifNetStore) TransferLeadership(database string, nodeId uint64, oldMasterPtId, newMasterPtId uint32) error {
+	return nil
+}
+func (verifNetStore) SendClearEvents(nodeId uint64, data transport.Codec) error { return nil }
+
+// NewVerifFSM builds the state machine exactly as NewStore does, with silent loggers.
+func NewVerifFSM(c *config.Meta) *VerifFSM {
+	s := NewStore(c, "", "", "")
+	s.Logger = logger.NewLogger(errno.ModuleUnknown).SetZapLogger(zap.NewNop())
+	s.NetStore = verifNetStore{}
+	if meta2.DataLogger == nil {
+		meta2.DataLogger = zap.NewNop()
+	}
+	return &VerifFSM{s: s}
+}
+
+// Apply applies one committed command (marshalled proto Command) through storeFSM.Apply.
+func (v *VerifFSM) Apply(term, index uint64, cmd []byte) interface{} {
+	return (*storeFSM)(v.s).Apply(&raft.Log{Term: term, Index: index, Type: raft.LogCommand, Data: cmd})
+}
+
+// ApplyBatch applies several committed commands through storeFSM.ApplyBatch.
+func (v *VerifFSM) ApplyBatch(term, firstIndex uint64, cmds [][]byte) []interface{} {
+	logs := make([]*raft.Log, len(cmds))
+	for i := range cmds {
+		logs[i] = &raft.Log{Term: term, Index: firstIndex + uint64(i), Type: raft.LogCommand, Data: cmds[i]}
+	}
+	return (*storeFSM)(v.s).ApplyBatch(logs)
+}
+
+// Snapshot is storeFSM.Snapshot: the returned object is persisted later (possibly after
+// more commands were applied), exactly as hashicorp/raft does.
+func (v *VerifFSM) Snapshot() (raft.FSMSnapshot, error) { return (*storeFSM)(v.s).Snapshot() }
+
+type verifSink struct{ bytes.Buffer }
+
+func (*verifSink) Close() error  { return nil }
+func (*verifSink) ID() string    { return "verif" }
+func (*verifSink) Cancel() error { return nil }
+
+// VerifPersist runs FSMSnapshot.Persist into memory and returns the bytes.
+func VerifPersist(snap raft.FSMSnapshot) ([]byte, error) {
+	sink := &verifSink{}
+	if err := snap.Persist(sink); err != nil {
+		return nil, err
+	}
+	return sink.Bytes(), nil
+}
+
+// Restore is storeFSM.Restore.
+func (v *VerifFSM) Restore(b []byte) error {
+	return (*storeFSM)(v.s).Restore(io.NopCloser(bytes.NewReader(b)))
+}
+
+// Data returns the live catalogue of the state machine.
+func (v *VerifFSM) Data() *meta2.Data { return v.s.data }
+
+// CQNames returns the store's sorted continuous-query name cache.
+func (v *VerifFSM) CQNames() []string { return append([]string(nil), v.s.cqNames...) }
+
+// VerifCommandTypes lists the command types registered in the dispatch table.
+func VerifCommandTypes() []int32 {
+	out := make([]int32, 0, len(applyFunc))
+	for t := range applyFunc {
+		out = append(out, int32(t))
+	}
+	sort.Slice(out, func(i, j int) bool { return out[i] < out[j] })
+	return out
+}
